@@ -110,3 +110,76 @@ Theorem cw_lml_correct_for_every_built_automaton :
   forall cs, Forall scalar cs -> cw_leftmost_find_iter V A (encode_utf8 cs) = Ok (map (to_bytes V cs) (spec_lml V pvs cs)).
 Proof. exact cw_built_lml. Qed.
 Print Assumptions cw_lml_correct_for_every_built_automaton.
+
+(* ---- C03 AS ONE DECLARATIVE STATEMENT ----------------------------------------------------------------
+   [lm_seq pick pvs h from ms] (Theory/SpecLeftmostSeq.v): every element of ms starts at the smallest
+   position >= the end of the previous element (initially [from]) at which ANY occurrence starts
+   (so no occurrence starts in a gap), is the occurrence chosen there by [pick], and the next
+   element is sought from its end; ms stops exactly when no occurrence starts at or after the end
+   of its last element.  [lml_pick]: the occurrence of the longest pattern occurring at that start.
+   The only notions underneath are [occ_at] and [occurs_at] (= occ_at for one pattern). *)
+From DV Require Import Theory.SpecLeftmostSeq Theory.Utf8Spec Theory.Utf8Spec2 Proofs.BuildTrie Proofs.BuildProps.
+
+Theorem spec_lml_is_the_leftmost_longest_sequence :
+  forall (V : Type) (pvs : list (list N * V)) (h : list N),
+    lm_seq V (lml_pick V pvs h) pvs h 0 (spec_lml V pvs h).
+Proof. exact SpecLeftmostSeq.spec_lml_is_the_leftmost_longest_sequence. Qed.
+Print Assumptions spec_lml_is_the_leftmost_longest_sequence.
+
+Theorem occurrence_of_one_pattern :
+  forall (V : Type) (pvs : list (list N * V)) (h : list N) (s e : nat) (v : V),
+    occ_at V pvs h s e v <-> exists p, In (p, v) pvs /\ occurs_at h s p /\ e = (s + length p)%nat.
+Proof. exact occ_at_occurs. Qed.
+Print Assumptions occurrence_of_one_pattern.
+
+(* consequences listed by the property: true occurrences, non-overlapping and increasing; the
+   sequence of positions is determined by the rule *)
+Theorem leftmost_longest_sequences_are_sound_disjoint_and_unique :
+  forall (V : Type) (pvs : list (list N * V)) (h : list N) (from : nat) (ms : list (nat * nat * V)),
+    lm_seq V (lml_pick V pvs h) pvs h from ms ->
+    (forall s e v, In (s, e, v) ms -> occ_at V pvs h s e v /\ (from <= s)%nat)
+    /\ (forall a m b m' c, ms = a ++ m :: b ++ m' :: c -> (snd (fst m) <= fst (fst m'))%nat)
+    /\ (forall ms', lm_seq V (lml_pick V pvs h) pvs h from ms' -> map fst ms = map fst ms').
+Proof.
+  intros V pvs h from ms H. split; [|split].
+  - exact (lm_seq_sound V _ pvs h (lml_pick_occ V pvs h) from ms H).
+  - exact (lm_seq_non_overlapping V _ pvs h (lml_pick_occ V pvs h) from ms H).
+  - exact (lml_seq_positions_unique V pvs h from ms H).
+Qed.
+Print Assumptions leftmost_longest_sequences_are_sound_disjoint_and_unique.
+
+Theorem bw_leftmost_longest_search_returns_the_leftmost_longest_sequence :
+  forall (V : Type) (veqb : V -> V -> bool), (forall a b, veqb a b = true <-> a = b) ->
+  forall nfb (pvs : list (list N * V)) (A : bw_automaton V),
+    (forall p v, In (p, v) pvs -> Forall (fun b => b < 256) p) -> 4 * total_len V pvs <= U32_MAX - 1 ->
+    bw_build_with_values V LeftmostLongest nfb pvs = Ok A ->
+  forall h, Forall (fun b => b < 256) h ->
+    exists ms, bw_leftmost_find_iter V A h = Ok ms /\ lm_seq V (lml_pick V pvs h) pvs h 0 ms.
+Proof.
+  intros V veqb Hv nfb pvs A Hb Hs HA h Hh. exists (spec_lml V pvs h). split.
+  - exact (bw_built_lml V veqb Hv nfb pvs A Hb Hs HA h Hh).
+  - apply SpecLeftmostSeq.spec_lml_is_the_leftmost_longest_sequence.
+Qed.
+Print Assumptions bw_leftmost_longest_search_returns_the_leftmost_longest_sequence.
+
+(* character-wise, on the UTF-8 encoding of any text: the same statement about BYTE positions and
+   the encoded patterns *)
+Theorem cw_leftmost_longest_search_returns_the_leftmost_longest_sequence :
+  forall (V : Type) (veqb : V -> V -> bool), (forall a b, veqb a b = true <-> a = b) ->
+  forall nfb (pvs : list (list N * V)) (A : cw_automaton V),
+    (forall p v, In (p, v) pvs -> Forall scalar p) -> 4 * total_len V pvs <= U32_MAX - 1 ->
+    cw_build_with_values V LeftmostLongest nfb pvs = Ok A ->
+  forall cs, Forall scalar cs ->
+    exists ms, cw_leftmost_find_iter V A (encode_utf8 cs) = Ok ms
+               /\ lm_seq V (lml_pick V (bpvs V pvs) (encode_utf8 cs)) (bpvs V pvs) (encode_utf8 cs) 0 ms.
+Proof.
+  intros V veqb Hv nfb pvs A Hsc Hs HA cs Hcs. exists (spec_lml V (bpvs V pvs) (encode_utf8 cs)). split.
+  - rewrite (cw_built_lml V veqb Hv nfb pvs A Hs HA cs Hcs). f_equal.
+    destruct (cw_build_ok_lemma V LeftmostLongest nfb pvs A Hs HA) as (Hv' & _).
+    apply spec_build_error_none_iff_valid in Hv' as (_ & Hne0 & Hnd).
+    assert (Hne : forall p v, In (p, v) pvs -> p <> []).
+    { intros p v Hin. rewrite Forall_forall in Hne0. apply Hne0. apply in_map_iff. exists (p, v). auto. }
+    symmetry. exact (spec_lml_bytes_eq_chars V pvs Hne Hsc cs Hcs).
+  - apply SpecLeftmostSeq.spec_lml_is_the_leftmost_longest_sequence.
+Qed.
+Print Assumptions cw_leftmost_longest_search_returns_the_leftmost_longest_sequence.
